@@ -51,6 +51,11 @@ def run(ck):
     wk = ck.body("2", "LoopSignal::wakeup")
     nt = [cs for cs in wk.calls() if cs.name == "notify" and not wk.is_cleanup(cs.bb)]
     ck.verdict(bool(nt) and T.t2_all_exits(wk, [0], [c.bb for c in nt]) is None, "2", "T2-all-exits", wk, "wakeup-always-notifies", "wakeup() notifies the poller on every path (a wake-up issued just before the loop blocks is kept by the poller's notifier, not by calloop state)", "wakeup() can return without notifying the poller (a suppression flag): a wake-up issued while an earlier one is pending, or after a failed dispatch, is lost", site=wk.where())
+    pp = ck.opt_body("Poll::poll")
+    if pp is not None:
+        waits = [cs for cs in pp.calls() if cs.f and cs.f["path"].startswith("polling::Poller::wait") and not pp.is_cleanup(cs.bb)]
+        on_cycle = any(any(w.bb in blk for blk in pp.loops().values()) for w in waits)
+        ck.verdict(len(waits) == 1 and not on_cycle, "2", "T5-loop-exit", pp, "single-wait-per-poll", "Poll::poll waits on the poller exactly once, on no cycle: a wake-up (notify) always makes poll() return", "Poll::poll waits in a loop (or more than once): a wait ended by wakeup()/a waker with no event is re-entered, so wake-ups and stop requests are lost until something else happens", site=pp.where(waits[0].bb) if waits else pp.where())
     nf = ck.opt_body("Notifier::notify")
     if nf is not None:
         pn = [cs for cs in nf.calls() if cs.f and cs.f["path"].startswith("polling::Poller::notify")]
@@ -121,6 +126,10 @@ def run(ck):
             if pl is not None and (pl["l"] in out_locals or T.copy_chain_locals(bo, st["rv"]["fields"][0]) & out_locals):
                 ok = True
         ck.verdict(ok, "3", "T6-provenance", bo, "returns-the-stored-output", "block_on returns the Option in which the future's output was stored (None if stop() came first)", "block_on does not return the stored output", site=bo.where())
+    # between a wait and the next poll of the future the stop flag is examined (stop() requested first => None)
+    sl0 = atomics(bo, "stop", ("load", "swap"))
+    bad = T.t2_all_exits(bo, [w0.to], [s.bb for s in sl0], exits={p0.bb})
+    ck.verdict(bool(sl0) and bad is None, "3", "T3-must-precede", bo, "stop-checked-between-wait-and-poll", "after every wait the stop flag is examined before the future is polled again", "after a wait block_on polls the future before looking at the stop flag: when stop() and a wake arrive in the same iteration it returns Some(output) instead of None", site=bo.where(p0.bb))
     # stop flag examined in the loop
     sl = atomics(bo, "stop", ("load", "swap"))
     ck.verdict(bool(sl) and bool(lp) and any(s.bb in lp[0][1] for s in sl), "3", "T5-loop-exit", bo, "stop-examined-every-iteration", "block_on re-examines the stop flag on every iteration", "block_on never re-examines the stop flag", site=bo.where())
